@@ -74,6 +74,13 @@ def run(ctx):
     cases = with_items(impl, cases_for(ctx))
     rows = ctx.correspond(impl, model, "c01_parse", cases, classify=classify,
                           nontrivial=lambda c, o: len(c.split(" ")[3]) > 2, describe=describe)
+    comp = composed_sample(ctx, cases, limit=2500 if ctx.tier == "quick" else 40000)
+    ctx.correspond(impl, model, "c01_parse", comp, classify=classify, nontrivial=lambda c, o: True,
+                   describe=describe)
+    ctx.cov["composed_with_lexer_model"] = {
+        "cases": len(comp),
+        "note": "these cases carry no items: the model runner lexes the source with Lex/Fun.v (lex_all / lex_limited) and "
+                "parses the result, so lexer model + parser model composed are tied to the code as well"}
     fam = ctx.cov["families"]["c01_parse"]
     fam["returned"] = sum(1 for _, i, _ in rows if i.startswith("ok"))
     fam["with_errors"] = sum(1 for _, i, _ in rows if i.startswith("ok") and "e=-" not in i)
@@ -97,7 +104,7 @@ def run(ctx):
         "character; distinct by case text.")
     ctx.cov["exhaustive"] = False
     ctx.assumptions += [
-        "interim tie: the model is fed the items the real lexer yields for (token limit, source); the lexer itself is C03's model",
+        "most cases feed the parser model the items the real lexer yields (fast); a sample runs lexer model + parser model composed on the source string",
         "release build of the harness (debug_assert! off); the model's debug flavour is covered by the theorem only",
         "real stack use per activation is not modelled: exhibited only by the deep-nest cases on a 1 MiB stack (measured: 0.7-0.9 KiB per nesting level in the release build; 256 KiB overflows from depth ~250)",
     ]
